@@ -33,6 +33,15 @@ func init() {
 			conc = append(conc, [2]string{n, canonFunc(p, fds[n])})
 		}
 		g.pf("def concurrency : List (String × String) :=\n  %s\n\n", leanPairList(conc))
+		// local variables: what the scoping model (Model/Scope.lean) was written from
+		var scope [][2]string
+		for _, n := range []string{"Ctx.varSpec", "Ctx.varDeclStmt", "Ctx.assignFromTo", "Ctx.pointerAssign", "Ctx.identExpr", "Ctx.referenceTo",
+			"identCtx.isPtrWrapped", "identCtx.setPtrWrapped", "Ctx.defineStmt", "Ctx.assignStmt"} {
+			if fds[n] != nil {
+				scope = append(scope, [2]string{n, canonFunc(p, fds[n])})
+			}
+		}
+		g.pf("def scoping : List (String × String) :=\n  %s\n\n", leanPairList(scope))
 		g.pf("end GooseVerif.Gen.Guards\n")
 		g.write()
 	}})
